@@ -8,6 +8,7 @@
 -/
 import MdwModel.Model.Writer
 import MdwModel.Generated.Source
+import MdwModel.Theorems.Compose
 namespace Mdw
 
 variable {Image : Type}
@@ -42,5 +43,29 @@ theorem C19_legacy_counterexample :
 /-- the regenerated source fact: `dump()` resets the three per-request fields on entry (the
     model's `reset = true`), or at least is not recognisably missing the reset -/
 theorem C19_code_resets : Src.dumpResetsTransient ≠ some false := by decide
+
+
+-- at the level of the image --------------------------------------------------------------------------------------------
+
+/-- **C19 (image).** With the reset on entry, the image the writer's operations produce for a request is the
+    closed-form image of what was gathered for *that* request — whatever earlier requests recorded does not enter:
+    the operational dump does not even take the state left behind as an input. -/
+theorem C19_image_fresh (d : DumpIn) (hN : 18 ≤ d.numWriters) (hsz : (dumpBytes d).length < 2 ^ 32)
+    (htid : ∀ p ∈ d.names, p.1 < 2 ^ 31) : opDump d = some (dumpBytes d) := Compose_dump d hN hsz htid
+
+/-- a small request: one thread with a stack, no modules, nothing else -/
+def c19Small : DumpIn :=
+  ⟨18, 0, [⟨5, 0x1000, some (0x1000, [1, 2, 3, 4, 5, 6, 7, 8]), none, List.replicate 1232 0, 9⟩], 5, none, [], [], [],
+   ⟨9, 6, 1, 4, 0x8201, [], []⟩, [], none, none, none, none, none, none, none, .failed [], none, [], .failed [], none⟩
+
+/-- **Counterexample (pre-repair), at the level of the image.** Started with a block left behind by an earlier request,
+    the same operations produce a different image for the same request: its memory list carries the stale
+    descriptor (count 2 instead of 1). -/
+theorem C19_image_legacy_counterexample :
+    opDumpLegacy ⟨[⟨0x7000, 16, 300⟩], CTC.none⟩ c19Small ≠ opDump c19Small ∧
+    (opDump c19Small).map List.length = some (32 + 216 + 4 + 48 + 8 + 1232 + 4 + 4 + 16 + 168 + 56 + 4 + 16 + 4) ∧
+    (opDumpLegacy ⟨[⟨0x7000, 16, 300⟩], CTC.none⟩ c19Small).map List.length =
+      some (32 + 216 + 4 + 48 + 8 + 1232 + 4 + 4 + 32 + 168 + 56 + 4 + 16 + 4) := by
+  decide +kernel
 
 end Mdw
